@@ -78,3 +78,43 @@ Theorem C02_explicit_ips_exact : forall rank a s o k v d,
   same_ips (cv_status v) d \/
   (exists have x, same_ips d [have] /\ cv_status v = [have; x] /\ additional_applies (o_req o) [have] = true).
 Proof. exact explicit_ips_exact. Qed.
+
+(* ---- the selection algorithm itself ---- *)
+From Coq Require Import Permutation Sorted.
+From Verif Require Import Proofs.AllocSortP Proofs.AllocRefP.
+
+(* sortPools: Go's insertionSort (what sort.Slice runs for <= 12 elements) with
+   sortPools' comparator - which is not a strict weak order - returns, for every
+   input, a permutation sorted by ascending priority number with priority 0 last *)
+Theorem C02_sortpools_permutation : forall l, Permutation (isort go_less l) l.
+Proof. exact (isort_perm go_less). Qed.
+Theorem C02_sortpools_sorted : forall l,
+  StronglySorted (fun x y => kle (prio_key x) (prio_key y)) (isort go_less l).
+Proof. exact isort_sorted. Qed.
+
+(* the transcription of findBestPoolForService / getFreeIPsFromPool /
+   selectIPsForFamilyAndPolicy, run on the pinned pools in sortPools' order and on
+   the unpinned auto-assign pools in any map-iteration order, always produces a
+   result the specification admits: so the algorithm tries pinned pools by
+   priority before unpinned ones, never uses a pool without auto-assignment, and
+   the relation used to validate the implementation's choices is not stricter
+   than the algorithm *)
+Theorem C02_reference_allocator_refines_spec : forall a s r unp,
+  names_unique (s_pools a) -> same_elems unp (unpinned_pools (s_pools a)) ->
+  allocate_spec a s r (allocate_ref a s r (isort go_less (pinned_pools (s_pools a) r)) unp) = true.
+Proof. exact allocate_ref_sortpools_refines_spec. Qed.
+
+Definition ex_req (p : N) : req :=
+  {| r_ns := 1%N; r_labels := []; r_fam := S4; r_pol := Single; r_first6 := false;
+     r_ports := [ {| proto := 0%N; pnum := p |} ]; r_key := {| sharing := 0%N; backend := 0%N |} |}.
+(* non-vacuity: two pinned pools, the one with priority 1 wins over priority 0 (= last) *)
+Definition ex_pinned (n prio0 base : N) : pool :=
+  {| p_name := n; p_cidrs := [ {| pfam := F4; pbase := base; plen := 30%N |} ]; p_avoid := false; p_auto := true;
+     p_pin := Some {| prio := prio0; nss := [1%N]; sels := [] |} |}.
+Example C02_reference_nonvacuous :
+  let ps := {| by_name := [ex_pinned 1 0 167772160; ex_pinned 2 1 167772164];
+               by_ns := [(1%N, [1%N; 2%N])]; by_sel := [] |} in
+  let a := {| s_pools := ps; allocated := [] |} in
+  allocate_ref a 7%N (ex_req 80) (isort go_less (pinned_pools ps (ex_req 80))) (unpinned_pools ps)
+  = Some (2%N, [V4 167772164%N]).
+Proof. vm_compute. reflexivity. Qed.
